@@ -68,7 +68,7 @@ class C06(Prop):
         out = []
         for _ in range(n):
             recs = gen_recs(rng)
-            depth = rng.randrange(4)
+            depth = rng.randrange(5)
             mode = rng.choice(["convert", "convert", "wrap", "json"])
             if depth == 0:
                 t, P, ppath = {"r": recs, "z": 1}, rng.choice(["r", "/r", "//r"]), ["r"]
@@ -76,8 +76,11 @@ class C06(Prop):
                 t, P, ppath = {"a": {"r": recs, "k1": "x"}}, rng.choice(["a/r", "/a/r"]), ["a", "r"]
             elif depth == 2:
                 t, P, ppath = {"a": [{"x": 1}, {"r": recs}]}, rng.choice(["a[1]/r", "/a[last()]/r", "a[-1]/r"]), ["a", 1, "r"]
-            else:
+            elif depth == 3:
                 t, P, ppath = {"a": {"b": [[0], recs]}}, rng.choice(["a/b[1]", "//a/b[last()]", "a/b/[1]"]), ["a", "b", 1]
+            else:
+                # a list-rooted container: the records sit in an element other than the first
+                t, P, ppath = [{"x": 1}, {"r": recs, "k1": "x"}], rng.choice(["[1]/r", "[-1]/r", "/[1]/r", "[last()]/r"]), [1, "r"]
             f = rng.choice(FIELDS)
             k = rng.choice(FIELDS)
             v = rng.choice(LITS) if rng.random() < 0.95 else ""      # the empty literal: equals no string or number field
